@@ -402,12 +402,19 @@ func (lexer *Lexer) dumpBuffer() error {
 		return nil
 	}
 
-	tok, err := lexer.DecodeAtom(lexer.buffer.String())
+	atom := lexer.buffer.String()
+	tok, err := lexer.DecodeAtom(atom)
 	if err != nil {
 		return err
 	}
 	lexer.buffer.Reset()
 	lexer.AppendToken(tok)
+	if n := len(atom); n > 0 && atom[n-1] == ':' && tok.typ != TokenSymbolColon && tok.typ != TokenColonOperator {
+		// DecodeAtom sets a trailing colon aside and gives it back
+		// only with a symbol (key:). After a number or a dotted
+		// path, a[0x1:] or a[h.lo:h.hi], it is the slice colon.
+		lexer.AppendToken(lexer.Token(TokenColonOperator, ":"))
+	}
 	return nil
 
 }
